@@ -315,6 +315,8 @@ def run(ctx):
                         'a recording stored through the asynchronous cassette holds every captured entry, each applied once and in order', floor=4)
     # ---- C01.p user code that runs after the operation (the metadata extractor) is not part of the recorded run (shared with C03.i)
     rm.extractor_runs_idle_clause(ctx, res, 'C01', 'C01.p')
+    # ---- C01.q the recorded outputs handed back by play() are exactly the writer's output entries (shared with C03.d)
+    _cmn.import_clauses(ctx, res, 'C03', ['C03.d'], 'C01', 'C01.q', 'R-AGREE', 'the extractor selects exactly the output entries that were written', floor=6)
     return res
 
 
